@@ -48,7 +48,28 @@ func (e *Engine) addHavoc(s *State, prefix string, all bool) {
 	s.havocs = append(s.havocs[:len(s.havocs):len(s.havocs)], havocRec{prefix: prefix, all: all, id: e.havocSeq})
 }
 
+// isFinal: the heap key is a field declared "final" (never assigned after the
+// struct's creation): havocs leave it alone.
+func (e *Engine) isFinal(key string) bool {
+	if e.finals == nil {
+		e.finals = map[string]bool{}
+		if e.P != nil {
+			for _, b := range e.P.Blocks {
+				if b.Kind == "final" {
+					for _, k := range strings.Fields(b.Header) {
+						e.finals[k] = true
+					}
+				}
+			}
+		}
+	}
+	return e.finals[key] || key == "chan#closedhere"
+}
+
 func (e *Engine) heapBase(s *State, key string, so *Sort) *Term {
+	if e.isFinal(key) {
+		return heapInit(e.C, key, so)
+	}
 	for i := len(s.havocs) - 1; i >= 0; i-- {
 		h := s.havocs[i]
 		if h.all || keyMatches(h.prefix, key) {
